@@ -275,7 +275,9 @@ func ruleValidatorReference(e *Engine, r *Reporter) {
 	fn := e.Func("internal/validation", "validateCondition")
 	// getters invoked on RelationReference values anywhere in the function
 	got := map[string]int{}
-	eachInstr(fn, true, func(in ssa.Instruction) {
+	// the function and the same-package helpers it calls (extracting one of the loops into a helper keeps the rule's view)
+	for _, rf := range sameePackageRegion(fn, 2) {
+	eachInstr(rf, true, func(in ssa.Instruction) {
 		c, ok := in.(ssa.CallInstruction)
 		if !ok {
 			return
@@ -292,6 +294,7 @@ func ruleValidatorReference(e *Engine, r *Reporter) {
 			}
 		}
 	})
+	}
 	// both acceptance loops (tuple without / with condition) decide on the restriction's type and condition
 	for _, g := range validatorReference["validateCondition"] {
 		r.Check(got[g] >= 2, "internal/validation.validateCondition consults RelationReference."+g, e.pos(fn.Pos()), fmt.Sprintf("%d deciding uses (both acceptance loops)", got[g]), fmt.Sprintf("validateCondition decides on the type restriction's %s in only %d of its 2 acceptance loops: a condition allowed for one user type is accepted on tuples of another", g, got[g]))
@@ -328,4 +331,32 @@ func reachesBranch(v ssa.Value) bool {
 		return false
 	}
 	return rec(v, 0)
+}
+
+
+// sameePackageRegion: fn plus the functions of its own package it statically calls, to the given depth.
+func sameePackageRegion(fn *ssa.Function, depth int) []*ssa.Function {
+	seen := map[*ssa.Function]bool{fn: true}
+	out := []*ssa.Function{fn}
+	frontier := []*ssa.Function{fn}
+	for d := 0; d < depth; d++ {
+		var next []*ssa.Function
+		for _, f := range frontier {
+			eachInstr(f, true, func(in ssa.Instruction) {
+				c, ok := in.(ssa.CallInstruction)
+				if !ok {
+					return
+				}
+				g := staticCallee(c)
+				if g == nil || seen[g] || len(g.Blocks) == 0 || pkgOf(g) != pkgOf(fn) || g.Parent() != nil {
+					return
+				}
+				seen[g] = true
+				out = append(out, g)
+				next = append(next, g)
+			})
+		}
+		frontier = next
+	}
+	return out
 }
